@@ -60,7 +60,7 @@ def handle (toks : List String) (impl : String) : Verdict :=
     match parseTagSpec a, parseTagSpec b with
     | some ta, some tb =>
       let eq := ta.eq tb
-      let model := s!"na:{hex ta.name},nb:{hex tb.name},eq:{b01 eq},cmp:{cmpStr (ta.cmp tb)},pc:1,hash:{b01 (ta.hashInput == tb.hashInput)},map:{b01 eq},es:{b01 eq}"
+      let model := s!"na:{hex ta.name},nb:{hex tb.name},eq:{b01 eq},cmp:{cmpStr (ta.cmp tb)},pc:1,hash:{b01 (ta.hashInput == tb.hashInput)},map:{b01 eq},es:{b01 eq},ne:1,hs:{b01 eq}"
       let f := kv impl
       let oracle :=
         match lookup "na" f >>= unhex, lookup "nb" f >>= unhex with
@@ -72,6 +72,8 @@ def handle (toks : List String) (impl : String) : Verdict :=
           else if same && lookup "hash" f != some "1" then "fail:hash-differs-for-equal"
           else if lookup "map" f != some (b01 same) then "fail:map-lookup"
           else if lookup "es" f != some (b01 same) then "fail:eq-with-str-not-by-name"
+          else if lookup "ne" f != some "1" then "fail:ne-is-not-the-negation-of-eq"
+          else if same && lookup "hs" f != some "1" then "fail:equal-tags-hash-differently-inside-a-slice"
           else "ok"
         | _, _ => "fail:unparsable-result"
       { model, oracle,
